@@ -11,6 +11,7 @@ import (
 
 	"github.com/cnotch/ipchub/av/codec"
 	"github.com/cnotch/ipchub/av/format/amf"
+	"github.com/cnotch/ipchub/utils/vhook"
 	"github.com/cnotch/queue"
 	"github.com/cnotch/xlog"
 )
@@ -110,6 +111,7 @@ func (muxer *Muxer) process() {
 	var packSequenceHeader bool
 
 	for !muxer.closed {
+		vhook.At("conv.loop", muxer)
 		f := muxer.recvQueue.Pop()
 		if f == nil {
 			if !muxer.closed {
